@@ -52,6 +52,10 @@ func c14Ops() []c14Op {
 		{"Dissociate(#x,me)", func(st state.Tracker) string { st.Dissociate("#x", "me"); return "" }},
 		{"Wipe", func(st state.Tracker) string { st.Wipe(); return "" }},
 		{"String", func(st state.Tracker) string { _ = st.String(); return "" }},
+		// a second channel: operations that span channels (Wipe, DelNick, ReNick, Me) must be atomic across them
+		{"GetChannel(#y)", func(st state.Tracker) string { return chanStr(st.GetChannel("#y")) }},
+		{"DelChannel(#y)", func(st state.Tracker) string { return chanStr(st.DelChannel("#y")) }},
+		{"IsOn(#y,a)", func(st state.Tracker) string { return pr(st.IsOn("#y", "a")) }},
 	}
 }
 
@@ -82,12 +86,21 @@ var c14Starts = []struct {
 		st.Associate("#x", "me")
 		st.NewNick("a")
 	}},
+	{"me+a-on-x+y", func(st state.Tracker) {
+		st.NewNick("a")
+		for _, c := range []string{"#x", "#y"} {
+			st.NewChannel(c)
+			st.Associate(c, "me")
+			st.Associate(c, "a")
+		}
+	}},
 }
 
 func c14Vector(st state.Tracker) string {
 	var v []string
 	v = append(v, "Me="+nickStr(st.Me()))
 	v = append(v, "chan="+chanStr(st.GetChannel("#x")))
+	v = append(v, "chany="+chanStr(st.GetChannel("#y")))
 	for _, n := range []string{"me", "me2", "a", "a2"} {
 		v = append(v, n+"="+nickStr(st.GetNick(n)))
 	}
